@@ -8,6 +8,7 @@ import Peppi.Lemmas.Transpose
 import Peppi.PremisesCore
 import Peppi.PremisesArrow
 import Peppi.PremisesSchema
+import Peppi.C02Bytes
 set_option linter.unusedVariables false
 namespace Peppi.Props.C14
 
@@ -195,5 +196,17 @@ theorem schema_Velocities : schemaMatchesJson Velocities.views Velocities.frames
 open Extracted in
 theorem schema_Velocity : schemaMatchesJson Velocity.views Velocity.framesJson = true :=
   _root_.Peppi.schema_Velocity 
+
+/- from `Peppi.C02Bytes` -/
+open Extracted in
+theorem import_export (v : Ver) (shape : List PortOccupancy) (h : List FrameOcc) (hok : ∀ o ∈ h, o.OK v (nSlots shape)) :
+    fromF' (v.gte 3 0) (normF (intoF' (widthsOf v) (expFrames v shape h))) = expFrames v shape h :=
+  _root_.Peppi.import_export v shape h hok
+
+/- from `Peppi.C02Bytes` -/
+open Extracted in
+theorem expFrames_rowsOK (v : Ver) (shape : List PortOccupancy) (h : List FrameOcc)
+    (hok : ∀ o ∈ h, o.OK v (nSlots shape)) : FrameRowsOK (widthsOf v) (expFrames v shape h) :=
+  _root_.Peppi.expFrames_rowsOK v shape h hok
 
 end Peppi.Props.C14
